@@ -92,6 +92,29 @@ def check_C09(ctx):
             stream = ['x', ':='] + inst + [';', 'k']
             src = 'DEFINE PRIO 1 %s AS %s END DEFINE\n%s' % (' '.join(pat), ' '.join(body[:-1]), ' '.join(stream))
             cases.append((fam, stream, src))
+    # every slot kind at the START of a pattern (and behind a literal), filled with content that begins with EVERY token the
+    # slot's grammar can begin with: statements starting with an identifier, a label, LOOP, WHILE, GOTO, IF, STOP; values
+    # starting with an identifier, a number, RUN
+    FIRSTS = {
+        '<P>': [['a', ':=', '1'], ['m', ':', 'a', ':=', '1'], ['LOOP', 'a', 'DO', 'b', ':=', '1', 'END'], ['WHILE', 'a', '!=', '0', 'DO', 'a', ':=', 'b', 'END'],
+                ['GOTO', 'm'], ['IF', 'a', '=', '2', 'THEN', 'GOTO', 'm'], ['STOP'], ['STOP', ';', 'a', ':=', '1'], ['a', ':=', '1', ';', 'STOP']],
+        '<V>': [['b'], ['7'], ['RUN', 'f', 'WITH', 'a', ',', '1', 'END'], ['RUN', 'f', 'WITH', 'END']],
+        '<A>': [['b'], ['7', ',', 'b'], ['RUN', 'f', 'WITH', 'a', 'END', ',', '2']],
+        '<ID>': [['b'], ['stop0'], ['Loop1']],
+        '<INT>': [['0'], ['7'], ['2147483646']],
+    }
+    for slot, fills in FIRSTS.items():
+        for (pat, body) in (([slot, 'WHEN', '<ID>'], ['LOOP', '$1', 'DO', '$0', 'END'] if slot == '<P>' else ['k', '(', '$0', ')', '$1']),
+                            (['ON', '<ID>', 'TAKE', slot, 'OK'], ['$1', '#0', '$0'])):
+            fam = [(2, pat, body)]
+            for f in fills:
+                for pre, post in (([], []), (['q', ':=', '3', ';'], [';', 'z']), (['STOP', ';'], [])):
+                    inst = []
+                    for t in pat:
+                        inst += f if t == slot else (['e'] if t == '<ID>' else [t])
+                    stream = pre + inst + post
+                    src = 'DEFINE PRIO 2 %s AS %s END DEFINE\n%s' % (' '.join(pat), ' '.join(body), ' '.join(stream))
+                    cases.append((fam, stream, src))
     for _ in range(ctx.n(300, 3000)):
         macros, stream, src = front.macro_case(r)
         cases.append((macros, stream, src))
